@@ -22,6 +22,7 @@ from ..common import workdir, rm_workdir, seed, MachineryError, REPO, PY, VERIF
 MARK = [12001, 14001, 223000, 101002, 31031, 101000, 31001, 223255]
 POOL_DEF = [([14001, 12001], 13), ([14001, 12001], 33), (MARK, 13), (MARK, 33), ([102000, 31001, 12001, 2001], 35), ([203012, 12001, 203255, 12001, 301011], 19)]
 BAD = (7, 9, 10)
+UNSCOPED = 11
 QUERIES = ['/012001', '014001', '/223000', '> 031001', '/102000/002001', '/301011/004001']
 
 
@@ -89,6 +90,13 @@ def build_pool(run, wd):
     o10[at4:at4 + 3] = list((n4 - 1).to_bytes(3, 'big'))
     o10[4:7] = list((len(o10)).to_bytes(3, 'big'))
     pool[10] = {'octets': o10, 'flat_json': None, 'queries': [], 'key': 33, 'tmpl': pool[4]['tmpl']}
+    # message 11: a template OUTSIDE Compiler.Scoped (a 221 count-down runs into a replication): the compiled path and the template
+    # walk legitimately give different results for it, so WHICH of the two a coder takes must be decided by its configuration alone,
+    # never by what it processed before; its reference result is taken per configuration (compilation on / off)
+    ids11 = [221004, 102002, 1001, 12001, 10004]
+    b11 = [b for b in fm94.gen_run(wd, 'MC_c13_pool_b11', [ids11], mversion=33, compressions=(False,), subset_counts=(1,), seeds=(1,)).iter_emitted() if not b['err']][0]
+    pool[11] = {'octets': b11['msg'], 'flat_json': pyb.flat_json(b11['ed'], b11['ids'], b11['nsub'], b11['cmp'], fm94.flat_values(b11), ident=fm94.ident_of(b11)),
+                'queries': ['001001', '/102002/012001'], 'key': 33, 'tmpl': ids11}
     return pool
 
 
@@ -104,7 +112,7 @@ def run(run):
             if p['tmpl'] not in tmpls:
                 tmpls.append(p['tmpl'])
         # ---- reference: every operation on every message in a process of its own
-        ref = {}
+        ref, ref_on = {}, {}
         jobs = []
         for m, p in sorted(pool.items()):
             if m in BAD:
@@ -122,6 +130,15 @@ def run(run):
                 steps = f.result()[0]
                 for st, res in zip(h, steps):
                     ref[(st['op'], m)] = res
+            # the unscoped message with template compilation ON, each operation in a fresh process of its own
+            for i, h in enumerate(([{'op': 'decode', 'm': UNSCOPED}, {'op': 'query', 'm': UNSCOPED}, {'op': 'render', 'm': UNSCOPED}, {'op': 'rewire', 'm': UNSCOPED}],
+                                   [{'op': 'encode', 'm': UNSCOPED}])):
+                steps = run_worker(wd, 'refon%d' % i, {'pool': pool, 'histories': [h], 'comp_max': 1})[0]
+                for st, res in zip(h, steps):
+                    ref_on[(st['op'], UNSCOPED)] = res
+        if 'error' in ref[('decode', UNSCOPED)] or 'error' in ref[('encode', UNSCOPED)]:
+            raise MachineryError('the unscoped pool message does not decode / encode: %r' % (ref[('decode', UNSCOPED)],))
+        run.notes['unscoped_message_differs_between_walk_and_compiled'] = ref_on.get(('decode', UNSCOPED)) != ref[('decode', UNSCOPED)]
         for m in BAD:
             if 'error' not in ref[('decode_fails', m)]:
                 raise MachineryError('the damaged pool message %d decodes' % m)
@@ -140,8 +157,8 @@ def run(run):
         batches = []
         for (tgl, cmax) in configs:
             small = tgl == 0        # the reduced pool around the message whose tables are incomplete (see below)
-            consts = {'Msgs': '{1, 2, 3, 4, 5, 6, 7, 9, 10}' if not small else '{1, 3, 8}', 'KeyOf': '<<' + ', '.join(str(keys.index(pool[m]['key']) + 1) for m in range(1, 11)) + '>>',
-                      'TmplOf': '<<' + ', '.join(str(tmpls.index(pool[m]['tmpl']) + 1) for m in range(1, 11)) + '>>',
+            consts = {'Msgs': '{1, 2, 3, 4, 5, 6, 7, 9, 10, 11}' if not small else '{1, 3, 8}', 'KeyOf': '<<' + ', '.join(str(keys.index(pool[m]['key']) + 1) for m in range(1, 12)) + '>>',
+                      'TmplOf': '<<' + ', '.join(str(tmpls.index(pool[m]['tmpl']) + 1) for m in range(1, 12)) + '>>',
                       'Bad': '{7, 9, 10}', 'Lenient': '{7}', 'Strict': '{8}' if small else '{}', 'TgLimit': str(tgl if not small else 2), 'CompMax': str(cmax), 'MaxLen': '4' if thorough else '3'}
             name = 'MC_caches_%d_%s' % (tgl, str(cmax).replace('-', 'm'))
             text = tlc.mc_module(name, ['Caches'], consts)
@@ -177,6 +194,8 @@ def run(run):
                     run.nontriv((cfgk, json.dumps(hist)))
                     for k, (st, res) in enumerate(zip(hist, steps)):
                         want = ref[(st['op'], st['m'])]
+                        if st['m'] == UNSCOPED and cfgk[1] >= 0 and (st['op'], UNSCOPED) in ref_on:
+                            want = ref_on[(st['op'], UNSCOPED)]         # this coder compiles: the compiled result, whatever came before
                         if st['op'] == 'decode_fails':
                             ok = 'error' in res and res['error'] == want['error']
                         else:
